@@ -46,6 +46,10 @@ def units(tier):
         SL("slice.feeder_error_vs_dispatch", "x2_feeder_error_vs_dispatch", 26),
         H("C01", "lokyverif.harness.c02_broken", "check_run_loop", t, ["loky.process_executor:_ExecutorManagerThread.run"],
           "1..3 turns of the manager loop, each a wake-up / a result / a broken pool; shutdown flag raised at turn 0..3; work left or not after each turn"),
+        H("C01", "lokyverif.harness.c04_contain", "check_feed", t, ["loky.backend.queues:Queue._feed"],
+          "'fail to pickle in either direction': every item that cannot be pickled or sent reaches the error handler as the item itself (so that its future is failed), later items are still sent; <=4 items, 5 outcomes each"),
+        H("C01", "lokyverif.harness.c04_contain", "check_feeder_error", t, ["loky.process_executor:_SafeQueue._on_queue_feeder_error"],
+          "the error handler fails exactly the item's future and wakes the manager; 3 ids"),
         H("C01", "lokyverif.harness.c10_resize", "check_resize_terminates", t, ["loky.reusable_executor:_ReusablePoolExecutor._resize"], "old != new in 1..3, dead workers before/after the spawn, pool breaks meanwhile"),
         H("C01", "lokyverif.harness.c02_broken", "check_wait_table", 1200 if tier == "thorough" else 400,
           ["loky.process_executor:_ExecutorManagerThread.wait_result_broken_or_wakeup"], "readiness subset symbolic"),
